@@ -127,8 +127,8 @@ def Op.pollAux (o : Op) (w : Nat) (sqRoom : Bool) : Nat → Op × PollOut × Lis
         match r.next with
         | none => ({ o with waker := some w }, .pending, [])
         | some (x, r') =>
-          let o' := { o with status := .running r' }
-          if x.res ≥ 0 then (o', .readyOk x, []) else (o', .readyErr (-x.res), [])
+          if x.res ≥ 0 then ({ o with status := .running r' }, .readyOk x, [])
+          else ({ o with status := .running r' }, .readyErr (-x.res), [])
       else
         ({ o with waker := some w }, .pending, [])
     | .done r =>
